@@ -15,7 +15,7 @@ func (f *Formatter) formatAclDeclaration(decl *ast.AclDeclaration) *Declaration 
 	lines := DeclarationPropertyLines{}
 
 	for _, cidr := range decl.CIDRs {
-		if cidr.GetMeta().PreviousEmptyLines > 0 {
+		if followsEmptyLine(cidr.GetMeta()) {
 			group.Lines = append(group.Lines, lines)
 			lines = DeclarationPropertyLines{}
 		}
@@ -98,7 +98,7 @@ func (f *Formatter) formatBackendProperties(props []*ast.BackendProperty, nestLe
 	lines := DeclarationPropertyLines{}
 
 	for _, prop := range props {
-		if prop.GetMeta().PreviousEmptyLines > 0 {
+		if followsEmptyLine(prop.GetMeta()) {
 			if f.conf.AlignDeclarationProperty {
 				lines.AlignKey()
 			}
@@ -153,7 +153,7 @@ func (f *Formatter) formatDirectorDeclaration(decl *ast.DirectorDeclaration) *De
 	lines := DeclarationPropertyLines{}
 
 	for _, prop := range decl.Properties {
-		if prop.GetMeta().PreviousEmptyLines > 0 {
+		if followsEmptyLine(prop.GetMeta()) {
 			if f.conf.AlignDeclarationProperty {
 				lines.AlignKey()
 			}
@@ -270,7 +270,7 @@ func (f *Formatter) formatTableProperties(props []*ast.TableProperty) string {
 	lines := DeclarationPropertyLines{}
 
 	for _, prop := range props {
-		if prop.PreviousEmptyLines > 0 {
+		if followsEmptyLine(prop.Meta) {
 			if f.conf.AlignDeclarationProperty {
 				lines.AlignKey()
 			}
